@@ -271,7 +271,8 @@ func (mc *MemoryChannel) finishRdb(writer *MemoryRdbWriter, err error) {
 	if mc.rdbWriter == writer {
 		mc.rdbWriter = nil
 	}
-	if err != nil && mc.rdb == writer.rdb {
+	// a writer closed before the whole rdb arrived leaves a partial rdb, which must not be offered either
+	if (err != nil || !writer.complete.Load()) && mc.rdb == writer.rdb {
 		mc.totalSize -= writer.rdb.bufferedSize()
 		if mc.totalSize < 0 {
 			mc.totalSize = 0
@@ -838,11 +839,12 @@ func (mr *MemoryReader) Close() {
 }
 
 type MemoryRdbWriter struct {
-	ch      *MemoryChannel
-	reader  io.Reader
-	rdb     *memoryRdb
-	current atomic.Pointer[memorySegment]
-	wait    usync.WaitCloser
+	ch       *MemoryChannel
+	reader   io.Reader
+	rdb      *memoryRdb
+	current  atomic.Pointer[memorySegment]
+	complete atomic.Bool
+	wait     usync.WaitCloser
 }
 
 func newMemoryRdbWriter(ch *MemoryChannel, reader io.Reader, rdb *memoryRdb) *MemoryRdbWriter {
@@ -911,6 +913,9 @@ func (w *MemoryRdbWriter) ingest() error {
 		if err != nil {
 			return fmt.Errorf("reader error : %w", err)
 		}
+	}
+	if remain == 0 {
+		w.complete.Store(true)
 	}
 	if w.wait.IsClosed() {
 		return nil
